@@ -23,6 +23,8 @@ type c12Req struct {
 type c12Case struct {
 	Format string   `json:"format"`
 	Reqs   []c12Req `json:"reqs"`
+	// Extra users with generated accounter blocks (names may repeat or be empty, types differ)
+	Extra []cfggen.User `json:"extra,omitempty"`
 }
 
 // the fixed configuration of this check: who has which accounter
@@ -42,6 +44,36 @@ func c12Config() cfggen.Config {
 }
 
 var c12HasAccounter = map[string]bool{"alice": true, "dave": true, "a%sb": true}
+
+// hasFileAccounter: does the user, as scope A sees it, end up with the file accounter (the only type
+// the reference server registers)?
+func (c c12Case) hasFileAccounter(user string) bool {
+	cfg := c12Config()
+	cfg.Users = append(cfg.Users, c.Extra...)
+	u, ok := cfg.ScopeUsers(cfggen.ScopeA)[user]
+	return ok && u.Acct != nil && u.Acct.Type == cfggen.AcctFile
+}
+
+func genC12Extra(t *rapid.T) []cfggen.User {
+	var out []cfggen.User
+	n := rapid.IntRange(0, 4).Draw(t, "nextra")
+	for i := 0; i < n; i++ {
+		u := cfggen.User{Name: []string{"x0", "x1", "x2", "x3"}[i], Scopes: []string{cfggen.ScopeA}}
+		acct := func(label string) *cfggen.Accounter {
+			if rapid.IntRange(0, 4).Draw(t, label+"_none") == 0 {
+				return nil
+			}
+			return &cfggen.Accounter{Name: rapid.SampledFrom([]string{"", "file", "log"}).Draw(t, label+"_name"),
+				Type: rapid.SampledFrom([]int{cfggen.AcctFile, cfggen.AcctFile, cfggen.AcctSyslog, cfggen.AcctStderr, 42}).Draw(t, label+"_type")}
+		}
+		u.Accounter = acct("acct")
+		if rapid.Bool().Draw(t, "via_groups") {
+			u.Groups = []cfggen.Group{{Name: "ga", Accounter: acct("gacct1")}, {Name: "gb", Accounter: acct("gacct2")}}
+		}
+		out = append(out, u)
+	}
+	return out
+}
 
 var nasty = []string{"%", "%d", "%!", "%s%s%s", "100%", `"`, `\`, `\"`, "<", "&", ">", "\x00", "\x01\x02", "\n", "\t", "\x7f", "%!d(MISSING)", "%%", "%v", "%+v", "%[1]s", "%09d", "{", "}", "',"}
 
@@ -66,7 +98,7 @@ func genNastyText(t *rapid.T, label string, max int) model.B {
 }
 
 func genC12(t *rapid.T) c12Case {
-	c := c12Case{Format: rapid.SampledFrom([]string{"yaml", "json"}).Draw(t, "format")}
+	c := c12Case{Format: rapid.SampledFrom([]string{"yaml", "json"}).Draw(t, "format"), Extra: genC12Extra(t)}
 	n := rapid.IntRange(1, 6).Draw(t, "nreqs")
 	for i := 0; i < n; i++ {
 		r := c12Req{Seq: rapid.SampledFrom([]byte{1, 1, 3, 5}).Draw(t, "seq")}
@@ -76,7 +108,7 @@ func genC12(t *rapid.T) c12Case {
 			Priv:    rapid.ByteRange(0, 15).Draw(t, "priv"),
 			AType:   rapid.SampledFrom(authenTypes0).Draw(t, "atype"),
 			Service: rapid.SampledFrom(authenServices).Draw(t, "service"),
-			User:    model.B(rapid.SampledFrom([]string{"alice", "alice", "alice", "dave", "a%sb", "bob", "carol", "erin", "mallory", ""}).Draw(t, "user")),
+			User:    model.B(rapid.SampledFrom([]string{"alice", "alice", "dave", "a%sb", "bob", "carol", "erin", "mallory", "", "x0", "x1", "x2", "x3", "x0", "x1"}).Draw(t, "user")),
 			Port:    genNastyText(t, "port", 255),
 			RemAddr: genNastyText(t, "rem", 255),
 		}
@@ -170,7 +202,9 @@ func runC12(t failer, c c12Case) {
 	fail := func(sig, format string, args ...interface{}) {
 		violation(t, "C12", "acct", "C12:"+sig, c, format, args...)
 	}
-	env, err := startRef(c12Config(), refOpts{format: c.Format, recover: true})
+	cfg := c12Config()
+	cfg.Users = append(cfg.Users, c.Extra...)
+	env, err := startRef(cfg, refOpts{format: c.Format, recover: true})
 	if err != nil {
 		t.Fatalf("HARNESS-BUG: fixed configuration refused: %v", err)
 	}
@@ -213,7 +247,7 @@ func runC12(t failer, c c12Case) {
 		_, decOK, exact := model.DecodeAcctRequest(body)
 		decodable := decOK && exact && r.Trim == 0
 		contradictory := r.Req.Flags&0x04 != 0 && r.Req.Flags&0x08 != 0
-		known := c12HasAccounter[string(r.Req.User)]
+		known := c.hasFileAccounter(string(r.Req.User))
 		switch {
 		case !decodable:
 			ev.Class("req:undecodable")
